@@ -8,5 +8,6 @@ CONSTANTS
   CloseLatches = TRUE
   TimeoutReleases = FALSE
   HandlerControlPath = TRUE
+  TimeoutFaultLatches = TRUE
 POSTCONDITION Accepted
 CHECK_DEADLOCK FALSE
